@@ -709,6 +709,7 @@ func checkC16(c *Ctx, r *Report) {
 	if lf == nil {
 		r.Unresolved("C16-R4", "(*StaticEndpointRepository).LoadFromConfig")
 	} else {
+		withHelpers(lf, 2) // binds the helpers' parameters to the loader's arguments
 		eachInstr(lf, func(in ssa.Instruction) {
 			st, ok := in.(*ssa.Store)
 			if !ok {
@@ -717,10 +718,18 @@ func checkC16(c *Ctx, r *Report) {
 			for _, fld := range []string{"HealthCheckURLString", "ModelURLString"} {
 				if isField(st.Addr, pkgDomain, "Endpoint", fld) {
 					key := fname(lf) + ":" + fld
-					if call, ok := st.Val.(*ssa.Call); ok && describeCall(&call.Call).Name == "ResolveURLPath" {
+					// the resolved strings may come back in a struct a helper of the loader fills (`derived, err := r.derive(cfg,
+					// urlString)` … `derived.modelURLString`): the stored value is then what the helper put in that field
+					val := st.Val
+					if alts := helperStructField(c, val); len(alts) == 1 {
+						val = alts[0]
+					} else if len(alts) > 1 {
+						val = nil
+					}
+					if call, ok := val.(*ssa.Call); ok && describeCall(&call.Call).Name == "ResolveURLPath" {
 						// … against the endpoint URL as configured: the base operand is the parsed URL's String() or the
 						// configured string itself, not a string some helper derived from it
-						base := stripConv(call.Call.Args[0])
+						base := stripConv(boundValue(stripConv(call.Call.Args[0])))
 						okBase := false
 						if bc, isCall := base.(*ssa.Call); isCall {
 							ci := describeCall(&bc.Call)
@@ -956,4 +965,88 @@ func inboundBodyOnly(v ssa.Value, d int) bool {
 		return len(x.Edges) > 0
 	}
 	return false
+}
+
+// helperStructField: v reads field i of a struct a repo helper returned (`h(...).f`, or `x, err := h(...)` … `x.f`):
+// the values the helper stores into that field on its returns that carry no error. nil when v is not of that shape.
+func helperStructField(c *Ctx, v ssa.Value) []ssa.Value {
+	var src ssa.Value
+	fieldNo := -1
+	switch x := v.(type) {
+	case *ssa.Field:
+		src, fieldNo = x.X, x.Field
+	case *ssa.UnOp:
+		// the struct sits in a local: `t = local T; *t = extract h(...) #0; … *(&t.f)`
+		fa, ok := x.X.(*ssa.FieldAddr)
+		if !ok || x.Op != token.MUL {
+			return nil
+		}
+		al, ok := fa.X.(*ssa.Alloc)
+		if !ok {
+			return nil
+		}
+		for _, ref := range *al.Referrers() {
+			if st, ok := ref.(*ssa.Store); ok && st.Addr == ssa.Value(al) {
+				if src != nil {
+					return nil
+				}
+				src = st.Val
+			}
+		}
+		fieldNo = fa.Field
+	}
+	if src == nil {
+		return nil
+	}
+	idx := 0
+	var call *ssa.Call
+	switch x := src.(type) {
+	case *ssa.Extract:
+		idx = x.Index
+		call, _ = x.Tuple.(*ssa.Call)
+	case *ssa.Call:
+		call = x
+	}
+	if call == nil {
+		return nil
+	}
+	h := call.Call.StaticCallee()
+	if h == nil || h.Blocks == nil || !c.inRepo(h) {
+		return nil
+	}
+	for i, p := range h.Params {
+		if i < len(call.Call.Args) {
+			bindParam(p, call.Call.Args[i])
+		}
+	}
+	var out []ssa.Value
+	for _, ret := range returnsOf(h) {
+		if idx >= len(ret.Results) {
+			continue
+		}
+		// an error return hands back no usable struct
+		if last := ret.Results[len(ret.Results)-1]; len(ret.Results) > 1 && last.Type().String() == "error" && !isNilConst(last) {
+			continue
+		}
+		ld, ok := ret.Results[idx].(*ssa.UnOp)
+		if !ok {
+			return nil
+		}
+		al, ok := ld.X.(*ssa.Alloc)
+		if !ok {
+			return nil
+		}
+		for _, ref := range *al.Referrers() {
+			fa, ok := ref.(*ssa.FieldAddr)
+			if !ok || fa.Field != fieldNo {
+				continue
+			}
+			for _, r2 := range *fa.Referrers() {
+				if st, ok := r2.(*ssa.Store); ok && st.Addr == ssa.Value(fa) {
+					out = append(out, st.Val)
+				}
+			}
+		}
+	}
+	return out
 }
